@@ -968,6 +968,18 @@ let is_local = function
 | KLocal -> true
 | _ -> false
 
+(** val is_steal : opk -> bool **)
+
+let is_steal = function
+| KSteal -> true
+| _ -> false
+
+(** val is_own : opk -> bool **)
+
+let is_own = function
+| KOwn -> true
+| _ -> false
+
 (** val call_ok : nat -> opk -> bool **)
 
 let call_ok a0 = function
@@ -1169,17 +1181,17 @@ let step b reuse s = function
    | XM ->
      let s1 = release s me.lb (sub me.pend me.ppi) in
      let s2 = s_rl s1 (updr s1.rl me.ppi me.pend true) in
-     (match me.kd with
-      | KSteal ->
-        Some
-          (setA s2 a0
-            (a_pc
-              (a_dq
-                (a_rv me (match rev me.res with
-                          | [] -> []
-                          | v :: _ -> v :: []))
-                (app me.dq (removelast me.res))) Ext))
-      | _ -> Some (setA s2 a0 (a_pc (a_rv me me.res) Idle)))
+     if is_steal me.kd
+     then Some
+            (setA s2 a0
+              (a_pc
+                (a_dq
+                  (a_rv me
+                    (match rev me.res with
+                     | [] -> []
+                     | v :: _ -> v :: [])) (app me.dq (removelast me.res)))
+                Ext))
+     else Some (setA s2 a0 (a_pc (a_rv me me.res) Idle))
    | LK -> Some (setA (s_tix s (S me.lpi)) a0 (a_pc me LKr))
    | LKr ->
      let s1 = release s me.lb (S O) in
@@ -1200,12 +1212,12 @@ let step b reuse s = function
   let me = s.a a0 in
   (match me.pc with
    | Ext ->
-     (match me.kd with
-      | KOwn ->
-        (match me.dq with
-         | [] -> Some (setA s a0 (a_pc me Idle))
-         | v :: r -> Some (setA s a0 (a_pc (a_dq (a_rv me (v :: [])) r) Idle)))
-      | _ -> Some (setA s a0 (a_pc me Idle)))
+     if is_own me.kd
+     then (match me.dq with
+           | [] -> Some (setA s a0 (a_pc me Idle))
+           | v :: r ->
+             Some (setA s a0 (a_pc (a_dq (a_rv me (v :: [])) r) Idle)))
+     else Some (setA s a0 (a_pc me Idle))
    | _ -> None)
 
 (** val ast0 : ast **)
@@ -1240,12 +1252,17 @@ let rec run b reuse s = function
    | Some s' -> run b reuse s' l'
    | None -> None)
 
-type aux = { amap : (z * nat) list; nxt : nat }
+type aux = { amap : (z * nat) list; nxt : nat; rcnt : (nat -> nat) }
 
 (** val aux0 : aux **)
 
 let aux0 =
-  { amap = []; nxt = (S O) }
+  { amap = []; nxt = (S O); rcnt = (fun _ -> O) }
+
+(** val set_rcnt : aux -> nat -> nat -> aux **)
+
+let set_rcnt x a0 n0 =
+  { amap = x.amap; nxt = x.nxt; rcnt = (upd x.rcnt a0 n0) }
 
 (** val look : (z * nat) list -> z -> nat option **)
 
@@ -1271,14 +1288,17 @@ let bind x z0 n0 =
     (match rlook x.amap n0 with
      | Some _ -> None
      | None ->
-       Some { amap = ((z0, n0) :: x.amap); nxt = (Nat.max x.nxt (S n0)) })
+       Some { amap = ((z0, n0) :: x.amap); nxt = (Nat.max x.nxt (S n0));
+         rcnt = x.rcnt })
 
 (** val choose : aux -> z -> nat * aux **)
 
 let choose x z0 =
   match look x.amap z0 with
   | Some m -> (m, x)
-  | None -> (x.nxt, { amap = ((z0, x.nxt) :: x.amap); nxt = (S x.nxt) })
+  | None ->
+    (x.nxt, { amap = ((z0, x.nxt) :: x.amap); nxt = (S x.nxt); rcnt =
+      x.rcnt })
 
 (** val pc_eqb : pcT -> pcT -> bool **)
 
@@ -1701,6 +1721,40 @@ let accept_ev b sx e =
                                       | _ -> None)
                                    | XO p3 ->
                                      (match p3 with
+                                      | XI p4 ->
+                                        (match p4 with
+                                         | XO p5 ->
+                                           (match p5 with
+                                            | XH ->
+                                              let a0 =
+                                                if (||)
+                                                     (pc_eqb (s.a t).pc XG)
+                                                     (pc_eqb (s.a t).pc XM)
+                                                then t
+                                                else O
+                                              in
+                                              if pc_eqb (s.a a0).pc XG
+                                              then go b s (Some
+                                                     (set_rcnt x a0 (S O)))
+                                                     (zeqn v (s.a a0).li)
+                                                     ((Step (a0, O)) :: [])
+                                                     tt_
+                                              else go b s (Some
+                                                     (set_rcnt x a0 (S
+                                                       (x.rcnt a0))))
+                                                     ((&&)
+                                                       ((&&)
+                                                         (pc_eqb (s.a a0).pc
+                                                           XM)
+                                                         (Nat.ltb (x.rcnt a0)
+                                                           (sub (s.a a0).pend
+                                                             (s.a a0).ppi)))
+                                                       (zeqn v
+                                                         (add (s.a a0).li
+                                                           (x.rcnt a0)))) []
+                                                     tt_
+                                            | _ -> None)
+                                         | _ -> None)
                                       | XO p4 ->
                                         (match p4 with
                                          | XI _ -> None
@@ -1711,7 +1765,7 @@ let accept_ev b sx e =
                                                 (s.a t).retry v
                                             | _ -> None)
                                          | XH -> ev_cas b s x t KPop v)
-                                      | _ -> None)
+                                      | XH -> None)
                                    | XH ->
                                      go b s (Some x)
                                        ((&&) (at_ s t Idle KBulk)
@@ -1876,17 +1930,20 @@ let accept_ev b sx e =
                                            (match p5 with
                                             | XH ->
                                               let a0 =
-                                                if pc_eqb (s.a t).pc XG
+                                                if pc_eqb (s.a t).pc XM
                                                 then t
                                                 else O
                                               in
-                                              if pc_eqb (s.a a0).pc XG
+                                              if pc_eqb (s.a a0).pc XM
                                               then go b s (Some x)
-                                                     (zeqn v
-                                                       (s.heap (s.a a0).lb).used)
-                                                     ((Step (a0,
-                                                     O)) :: ((Step (a0,
-                                                     O)) :: [])) tt_
+                                                     ((&&)
+                                                       (Nat.eqb (x.rcnt a0)
+                                                         (sub (s.a a0).pend
+                                                           (s.a a0).ppi))
+                                                       (zeqn v
+                                                         (s.heap (s.a a0).lb).used))
+                                                     ((Step (a0, O)) :: [])
+                                                     tt_
                                               else go b s (Some x)
                                                      ((&&)
                                                        (pc_eqb (s.a a0).pc
